@@ -23,6 +23,18 @@ def _callsite(k, f):
         return n in k['widths']
     return True
 
+@cls('ulp_excess')
+def _ulp_excess(k, f):
+    """an accuracy bound exceeded by a recorded margin: same call site, error no larger than the recorded maximum, inside the
+    recorded operand box (a larger error, another function or another region is still reported)"""
+    if f.get('kind') != 'ULP' or (f['ty'] + '.' + f['op']) not in k['sites']: return False
+    import re
+    m = re.search(r'ulp=(\d+)', f.get('want', ''))
+    if not m or int(m.group(1)) > k['max_ulp']: return False
+    lo, hi = int(k['box'][0], 16), int(k['box'][1], 16)
+    try: return all(lo <= int(a, 16) <= hi for a in f['args'])
+    except Exception: return False
+
 def open_findings(pid):
     return [k for k in _load() if k.get('status', 'open') == 'open' and pid in k['properties']]
 
